@@ -440,6 +440,31 @@ def known_trailing_blanks_project():
     return {"files": {w.relpath: w.text()}, "markers": markers, "kind": "expr", "min_version": 2, "app_only": False}
 
 
+def known_gate_slots_project():
+    """Replay of the finding `gate-renumbers-slots`: with the feature gate on, Router._build_program re-frames
+    the generated ASTs and thereby evaluates ABI method subroutines EARLY (NatalStackFrame._walk_asts calls
+    get_declaration_by_option), so ScratchSlot ids are handed out in another order and the emitted slot numbers
+    differ from those of the same source compiled with source mapping disabled (versions without frame pointers)."""
+    w = FileWriter("main.py", 0)
+    w.add(HEADER.rstrip("\n"))
+    w.add("")
+    w.add("@pt.Subroutine(pt.TealType.uint64)")
+    w.add("def helper(x):")
+    w.add("    return x + pt.Int({M})")
+    w.add("")
+    w.add("def build_router():")
+    w.add('    router = pt.Router("c15", pt.BareCallActions(')
+    w.add("        no_op=pt.OnCompleteAction.create_only(pt.Seq(pt.Pop(helper(pt.Int({M}))), pt.Approve()))),")
+    w.add("        clear_state=pt.Approve())")
+    w.add("    @router.method")
+    w.add("    def m1(a: pt.abi.Uint64):")
+    w.add("        return pt.Pop(a.get() + pt.Int({M}))")
+    w.add("    return router")
+    w.add(FOOTER.rstrip("\n"))
+    markers = {m: [w.relpath, ln, exp] for m, (ln, exp) in w.markers.items()}
+    return {"files": {w.relpath: w.text()}, "markers": markers, "kind": "router", "min_version": 6, "app_only": True}
+
+
 if __name__ == "__main__":
     import random
     import sys
